@@ -48,7 +48,7 @@ man = dict(
                                  'constant/shape folding; the sources are first brought into a normal form in memory (private names canonicalised against a recorded '
                                  'vocabulary, un-anchored helpers inlined, extracted variables written back, three idioms desugared) so that behaviour-preserving '
                                  'clean-ups keep what the rules look at; thorough tier adds an in-memory self-test of every rule: hand-written mutants, '
-                                 'benign twins, and 114 behaviour-preserving patches written by independent sub-agents')],
+                                 'benign twins, and 199 behaviour-preserving patches written by independent sub-agents; a rule that lost an anchor in a run reports what it misses as undecided (exit 2), not as a violation')],
     checks=checks,
     notes=NOTES,
     not_applicable=na,
